@@ -1,7 +1,7 @@
 (* C18 -- the statements about reachable states of DataColumnList, spelled out (corollaries of Inv.v). *)
 From Coq Require Import ZArith Bool List Lia.
 From MomoCommon Require Import GenPrelude.
-From C18 Require Import Gen_Vertices Gen_Ceil Model Layout Fill Vertices Inv.
+From C18 Require Import Gen_Vertices Gen_Ceil Model Layout Fill Vertices Bits Inv.
 Import ListNotations.
 Local Open Scope Z_scope.
 
@@ -84,7 +84,7 @@ Section WithL.
     - inversion Hops as [|? ? Hcs Hrest]; subst.
       pose proof (add_spec L keep HL st cs I Hcs) as Hs.
       pose proof (after_inv L keep HL st cs I Hcs) as I'.
-      destruct (add L st cs) as [st'| | | |] eqn:Ea; cbn [after] in *; try (apply IH; auto); try contradiction.
+      destruct (add L st cs) as [st'| | |st'| |] eqn:Ea; cbn [after] in *; try (apply IH; auto); try contradiction.
       rewrite IH by auto. destruct Hs as (_ & (rs & E & Hm & _) & _).
       rewrite E, !map_app, Hm, app_assoc. reflexivity.
   Qed.
@@ -100,10 +100,56 @@ Section WithL.
     - intros Hin. apply in_map_iff in Hin. destruct Hin as (r & Ec & Hr).
       exists (r_off r). apply reachable_contains; eauto.
   Qed.
+  (* ---- histories in which allocations fail ---- *)
+  Notation reach_f ops := (run_f L keep ops).
+
+  Lemma run_f_snoc ops op : reach_f (ops ++ [op]) = after (reach_f ops) (add_f L (fst op) (reach_f ops) (snd op)).
+  Proof. unfold run_f. rewrite fold_left_app. reflexivity. Qed.
+
+  (* refused_add_unchanged, also for allocation failures: after ANY history (with failures anywhere), an Add that is
+     not accepted -- Too many / Cannot add / bad_alloc in Reserve, SetCount or in the middle of Insert -- leaves
+     codeParam, addends, total size, alignment, the records, the code set (as a set) and every IsMutable answer as
+     they were; hence every lookup and every Contains answer too *)
+  Theorem refused_or_failed_add_unchanged ops fs cs :
+    Forall (fun op => group_ok (snd op)) ops -> group_ok cs ->
+    (forall st', add_f L fs (reach_f ops) cs <> Added st') ->
+    unchanged_obs (reach_f ops) (reach_f (ops ++ [(fs, cs)])) /\
+    (forall code, get_offset L (reach_f (ops ++ [(fs, cs)])) code = get_offset L (reach_f ops) code) /\
+    (forall code, contains L (reach_f (ops ++ [(fs, cs)])) code = contains L (reach_f ops) code).
+  Proof.
+    intros Hops Hcs Hna. rewrite run_f_snoc. cbn [fst snd].
+    pose proof (run_f_inv L keep HL ops Hops) as I.
+    pose proof (not_added_unchanged L keep HL fs _ cs I Hcs Hna) as U. split; [exact U|].
+    destruct U as (E1 & E2 & E3 & E4 & E5 & E6 & E7).
+    split; intros code.
+    - unfold get_offset. rewrite E1, E2. reflexivity.
+    - unfold contains. rewrite E1, E2.
+      assert (Em : mem code (codeSet (after (reach_f ops) (add_f L fs (reach_f ops) cs))) = mem code (codeSet (reach_f ops))).
+      { destruct (mem code (codeSet (reach_f ops))) eqn:E.
+        - apply mem_in. apply E6. apply mem_in. exact E.
+        - destruct (mem code (codeSet (after _ _))) eqn:E'; [|reflexivity].
+          apply mem_in in E'. apply E6 in E'. apply mem_in in E'. congruence. }
+      rewrite Em. reflexivity.
+  Qed.
+
+  Theorem reachable_f_invariant ops : Forall (fun op => group_ok (snd op)) ops -> Inv L keep (reach_f ops).
+  Proof. apply run_f_inv; auto. Qed.
+
+  (* IsMutable in any reachable state: true at the offset of a column iff it was added as mutable; nowhere else *)
+  Theorem reachable_is_mutable ops : Forall (fun op => group_ok (snd op)) ops ->
+    (forall r, In r (columns (reach_f ops)) -> is_mutable (reach_f ops) (r_off r) = r_mut r) /\
+    (forall o, 0 <= o -> is_mutable (reach_f ops) o = true ->
+       exists r, In r (columns (reach_f ops)) /\ r_off r = o /\ r_mut r = true).
+  Proof.
+    intros Hops. pose proof (run_f_inv L keep HL ops Hops) as I. split.
+    - intros r Hr. apply (is_mutable_column L keep); auto.
+    - intros o Ho H. apply (is_mutable_only_columns L keep); auto.
+  Qed.
 End WithL.
 
+
 (* ---------- non-vacuity: concrete histories evaluated by the kernel ---------- *)
-Definition u32 (code : Z) : col := mkcol code 4 4.
+Definition u32 (code : Z) : col := mkcol code 4 4 false.
 
 (* logVertexCount 4 with row number: the third Add only succeeds with the second code parameter *)
 Example retry_history :
@@ -117,7 +163,7 @@ Example refused_history :
 Proof. vm_compute. exact I. Qed.
 
 Example too_many_history :
-  match add 4 (run 4 false (map (fun k => [mkcol k 1 1]) [1; 2; 3; 4; 5; 6; 7; 8])) [mkcol 9 1 1] with
+  match add 4 (run 4 false (map (fun k => [mkcol k 1 1 false]) [1; 2; 3; 4; 5; 6; 7; 8])) [mkcol 9 1 1 true] with
   | TooMany => True | _ => False end.
 Proof. vm_compute. exact I. Qed.
 
